@@ -79,6 +79,14 @@ where
     D: WriteXml + Debug + Send + Sync,
 {
     pub fn target(mut self, target: Datastore) -> Result<Self, Error> {
+        // RFC 6241 section 7.2: only <running/> and <candidate/> may be edited; the :startup
+        // capability adds <startup/> to <copy-config> and <delete-config> only.
+        if matches!(target, Datastore::Startup) {
+            return Err(Error::InvalidTarget {
+                operation_name: EditConfig::<D>::NAME,
+                datastore: target,
+            });
+        };
         target.try_as_target(self.ctx).map(|target| {
             self.target.set(target);
             self
